@@ -53,14 +53,18 @@ Definition dec_xevent (v : val) : xevent :=
                   (map (fun m => mkMember (vB (vnth 0 m)) (vI (vnth 1 m))) (vL (vnth 4 v))) (vB (vnth 5 v))
   end.
 
-(* a case is a pair of events; the model's answer: do their hashed byte strings coincide? *)
+(* a case is a pair of events; the model's answer: do their hashed byte strings coincide, and the
+   two byte strings themselves (the implementation reports what it fed into SHA-256 through the
+   verif-tagged recording hasher) *)
 Definition claim_run (c : val) : val :=
-  vbool (beqb (xenc (dec_xevent (vnth 0 c))) (xenc (dec_xevent (vnth 1 c)))).
+  let b1 := xenc (dec_xevent (vnth 0 c)) in
+  let b2 := xenc (dec_xevent (vnth 1 c)) in
+  VL [vbool (beqb b1 b2); VB b1; VB b2].
 
 (* monitor: two events that differ in some field (different hashed strings in the model) but get
    the same claim id from the implementation are a concrete failing input *)
 Definition mon_C14 (c impl : val) : val :=
-  if negb (vgetbool (claim_run c)) && vgetbool impl then
+  if negb (vgetbool (vnth 0 (claim_run c))) && vgetbool (vnth 0 impl) then
     VL [VL [VB (map Z.to_N [67;49;52;47;100;105;102;102;101;114;101;110;116;45;101;118;101;110;116;115;45;115;97;109;101;45;99;108;97;105;109;45;105;100]%Z);
             VI 0; vnth 0 c; vnth 1 c]]     (* C14/different-events-same-claim-id *)
   else VL [].
